@@ -260,3 +260,21 @@ Lemma ex_msg_read :
   read_msg {| s_data := enc_msg ex_msg ++ [xff]; s_sched := repeat (1%nat, true) 31 |} =
     Some (Ok ex_msg, {| s_data := [xff]; s_sched := [] |}).
 Proof. vm_compute. reflexivity. Qed.
+
+(* lossless: the frame determines the message.  Two valid messages followed by any bytes that
+   give the same byte string are equal, and so are the trailing bytes; no frame is a proper
+   prefix of another *)
+Lemma enc_msg_injective : forall m1 m2 r1 r2, valid_msg m1 -> valid_msg m2 ->
+  enc_msg m1 ++ r1 = enc_msg m2 ++ r2 -> m1 = m2 /\ r1 = r2.
+Proof.
+  intros m1 m2 r1 r2 H1 H2 He.
+  destruct (read_msg_roundtrip m1 r1 [] H1 (Forall_nil _)) as [s1 [E1 _]].
+  destruct (read_msg_roundtrip m2 r2 [] H2 (Forall_nil _)) as [s2 [E2 _]].
+  rewrite He in E1. rewrite E1 in E2. inversion E2 as [[Hm Hr Hs]]. split; reflexivity.
+Qed.
+Lemma enc_msg_not_prefix : forall m1 m2 r, valid_msg m1 -> valid_msg m2 ->
+  enc_msg m1 = enc_msg m2 ++ r -> m1 = m2 /\ r = [].
+Proof.
+  intros m1 m2 r H1 H2 He. rewrite <- (app_nil_r (enc_msg m1)) in He.
+  destruct (enc_msg_injective m1 m2 [] r H1 H2 He) as [Hm Hr]. split; [exact Hm|now symmetry].
+Qed.
